@@ -46,10 +46,18 @@ CHECKS = {
          "compute_merkle_set_root, MerkleSet::from_leafs().get_root() and a reference implementation written from the definition agree under permutation and duplication; generate_proof/validate_merkle_proof are complete for members and non-members sharing k-bit prefixes with members; soundness is attacked with structural rewrites of honest proofs (the model decides which keep the root) and with exhaustive enumeration of all proof trees over small alphabets/depths validated against every honest subset root: validate_merkle_proof must return Err or the true membership. Exhaustive on the enumerated spaces, sampled elsewhere.",
          "Soundness over all byte strings can be refuted, not proved; the bounds explored are in the evidence.",
          "DESIGN.md section 4, C12"),
+ "C17": ("proptest (trees and cache histories) + exhaustive small-atom sweep against a recursive reference hash",
+         "tree_hash, tree_hash_cached (fresh cache, reused cache, after the visit_tree pre-pass, across histories of up to 8 trees sharing sub-trees in one allocator), tree_hash_from_bytes on plain and back-reference serializations, the TreeHasher encoder, curry_tree_hash and (through fast_forward_singleton) curry_and_treehash are all compared with the harness's reference sha256 tree hash on deep chains (50k), wide lists, layered DAGs and every allocator representation of small atoms; the 24 precomputed small-atom hashes are recomputed exhaustively.",
+         "The reference hash is the harness's own bottom-up implementation over an arena; clvmr is trusted for serialization of inputs.",
+         "DESIGN.md section 4, C17"),
  "C18": ("proptest stateful (model-based) histories against a BTreeMap model and an independent tree-hash/proof recomputation",
          "Histories of up to 60 operations (insert at auto/root/leaf locations incl. free and out-of-range indexes, upsert, delete, batch insert with fresh and duplicate entries, lazy hash calculation, reload, proofs) over small and large key spaces; after every step the blob's content equals the model (updated iff the operation returned Ok), check_integrity passes, a failed operation leaves content/root unchanged, reload is equivalent, the root equals the harness's bottom-up recomputation and every key has a valid inclusion proof ending in that root. Known genuine defects are keyed on oracle signatures and excluded by construction so the search continues behind them.",
          "The model encodes no failure policy: which operations must succeed is not asserted (only non-vacuity floors).",
          "DESIGN.md section 4, C18"),
+ "C20": ("proptest through an embedded CPython interpreter (pyo3): JSON-dict round-trip plus single-node corruptions that must raise",
+         "For generated values of 178 root types (every #[streamable] struct of chia-protocol read from the sources at build time, conditions, datalayer records, BLS elements, all integer widths, Option/Vec/tuple/array combinators) from_json_dict(to_json_dict(v)) must reproduce the value, its bytes and its hash; 12 single-node edits per case are classified as invalid (deleted key, None for non-optional, out-of-range/typed-wrong integers, bad hex, wrong fixed lengths, wrong tuple/array arity: must raise) or valid (must be accepted and reflected exactly).",
+         "Runs the Rust callees of the Python bindings through an embedded interpreter; the cdylib wrappers in wheel/src/api.rs are not linked. Edits whose validity the statement does not fix (missing 0x prefix, deleted key of an Option field) are counted but not asserted.",
+         "DESIGN.md section 4, C20"),
 }
 
 NOT_YET = "check not built yet in this revision of /verif (work in progress; see DESIGN.md section 4 for the planned generated-input check)"
@@ -97,7 +105,7 @@ def main():
     json.dump(m, open(os.path.join(ROOT, "MANIFEST.json"), "w"), indent=1, ensure_ascii=False)
     print("MANIFEST.json written:", len(checks), "checks,", len(na), "not_applicable")
 
-HOOK_COMMITS = []
+HOOK_COMMITS = ["504bd06858d94d05adea6988870f648565691bad"]
 
 if __name__ == "__main__":
     main()
